@@ -495,6 +495,11 @@ def vc_array_inspect_args():
                         info = out[1]
                         a = info.attrs
                         ob("accepted_only_if_static_dimensions_agree", agree)
+                        # Info is the private plan handed from _inspect_args to the writer: a plan without one of these entries is a
+                        # different protocol, about which this harness says nothing (sub-case undecided), not a wrong plan
+                        for key in ("shape", "strides", "size", "items", "order"):
+                            if key not in a:
+                                raise KeyError(f"Info has no entry `{key}` (the plan protocol between _inspect_args and _to_buffer changed)")
                         shp = a.get("shape")
                         shp = shp.items if isinstance(shp, PList) else (list(shp) if isinstance(shp, tuple) else None)
                         ob("shape_present", shp is not None and len(shp) == rank)
@@ -516,7 +521,7 @@ def vc_array_inspect_args():
                         if form == "dimensions":
                             ob("no_value", a.get("value") is None)
                         else:
-                            ob("value_kept", a.get("value") is args[0])
+                            ob("value_kept", a.get("value") is args[0] or same_value(a.get("value"), args[0]) is True)
                 except HARNESS_ERRORS as e:
                     vc_array_inspect_args.undecided.append((lab, str(e)[:160]))
                 obs += it.obligations
